@@ -33,7 +33,7 @@ ASSUMPTIONS = [
 LEVEL_TEXT = ("Random histories with colliding keys under every combination of matching options are compared step by "
               "step with a reference model; bounded by history length 24 and the small component universe.")
 LEVEL_NOTE = "trusts taddons.context option plumbing and http.Request.make"
-QUICK_N, THOROUGH_N = 40_000, 1_500_000
+QUICK_N, THOROUGH_N = 24_000, 1_000_000
 
 METHODS = ["GET", "POST", "PUT"]
 SCHEMES = ["http", "https"]
@@ -61,8 +61,8 @@ OPTS = {
     "server_replay_ignore_params": IGN_PARAMS,
     "server_replay_ignore_payload_params": IGN_PAYLOAD,
     "server_replay_use_headers": USE_HEADERS,
-    "server_replay_reuse": [False, True],
-    "server_replay_nopop": [False, True],
+    "server_replay_reuse": [False, False, True],
+    "server_replay_nopop": [False, False, False, True],
     "server_replay_extra": EXTRA,
     "server_replay_kill_extra": [False, True],
 }
@@ -113,7 +113,7 @@ _mut = st.one_of(
 _muts = st.one_of(st.just([]), st.lists(_mut, min_size=1, max_size=1), st.lists(_mut, min_size=1, max_size=2))
 # a request/recording = variant number (index into the history's small pool of variants of the base request, so that
 # the same near-miss occurs several times and interleaved) + mostly no further mutations
-_who = st.tuples(st.integers(0, 3), st.one_of(st.just([]), st.just([]), st.just([]), _muts))
+_who = st.tuples(st.integers(0, 3), st.integers(0, 3).flatmap(lambda i: _muts if i == 0 else st.just([])))
 _rec = st.tuples(_who, st.sampled_from([True, True, True, True, True, False]))  # (who, has response)
 
 _opt_op = st.sampled_from(sorted(OPTS)).flatmap(
@@ -121,11 +121,13 @@ _opt_op = st.sampled_from(sorted(OPTS)).flatmap(
 _hash_opt_op = st.sampled_from(HASH_OPTS).flatmap(
     lambda k: st.tuples(st.just("opt"), st.just(k), st.sampled_from(OPTS[k])))
 _req_op = st.tuples(st.just("req"), _who)
-_op = st.one_of(_req_op, _req_op, _req_op, _req_op, _req_op, _hash_opt_op, _opt_op,
-                st.tuples(st.just("add"), st.lists(_rec, min_size=1, max_size=3)),
-                st.one_of(st.tuples(st.just("clear")),
-                          st.tuples(st.just("load"), st.lists(_rec, min_size=1, max_size=4)),
-                          st.tuples(st.just("count"))))
+_misc_op = st.one_of(st.tuples(st.just("clear")),
+                      st.tuples(st.just("load"), st.lists(_rec, min_size=1, max_size=4)),
+                      st.tuples(st.just("count")),
+                      st.tuples(st.just("add"), st.lists(_rec, min_size=1, max_size=3)),
+                      st.tuples(st.just("add"), st.lists(_rec, min_size=1, max_size=3)).map(list))
+# (one_of drops repeated strategy objects, so weights are given through an index)
+_op = st.integers(0, 11).flatmap(lambda i: _req_op if i < 7 else _hash_opt_op if i < 9 else _opt_op if i < 11 else _misc_op)
 
 
 def strategy(ctx):
@@ -138,7 +140,7 @@ def strategy(ctx):
             st.fixed_dictionaries({k: (st.just(v[0]) if k in HASH_OPTS else st.sampled_from(v))
                                    for k, v in sorted(OPTS.items())})),
         "recs": st.lists(_rec, min_size=2, max_size=8),
-        "ops": st.lists(_op, min_size=1, max_size=24),
+        "ops": st.lists(_op, min_size=3, max_size=24),
     })
 
 
